@@ -428,7 +428,7 @@ class Interp:
             return self.truth(v.b)
         if isinstance(v, VOpaque):
             return True
-        if isinstance(v, (types.FunctionType, types.ModuleType, BoundMethod, Closure)):
+        if isinstance(v, (types.FunctionType, types.ModuleType, BoundMethod, Closure, GhostFn, GhostObj)):
             return True
         raise Unsupported(f"truthiness of {type(v).__name__}")
 
